@@ -573,6 +573,87 @@ func init() {
 		}
 		return out
 	})
+	// strings.Builder: the content is kept as a string value (concrete or symbolic) in the buf field
+	builderGet := func(in *Interp, recv Value) (*Value, Value) {
+		p, _ := recv.(*Value)
+		if p == nil {
+			in.rtPanic("nil *strings.Builder")
+		}
+		st := (*p).(Struct)
+		buf, _ := st[1].(Slice)
+		if len(buf) == 1 {
+			if sb, ok := buf[0].(symBytes); ok {
+				return p, sb.s
+			}
+		}
+		bs, ok := concBytes(buf)
+		if !ok {
+			in.abort("unsupported: strings.Builder with symbolic bytes")
+		}
+		return p, string(bs)
+	}
+	builderSet := func(in *Interp, p *Value, v Value) {
+		st := append(Struct{}, (*p).(Struct)...)
+		switch s := v.(type) {
+		case string:
+			bs := make(Slice, len(s))
+			for i := 0; i < len(s); i++ {
+				bs[i] = BV(8, uint64(s[i]))
+			}
+			st[1] = bs
+		case *SymStr:
+			st[1] = in.symStringToBytes(s)
+		}
+		*p = st
+	}
+	reg("(*strings.Builder).WriteString", func(in *Interp, fr *frame, a []Value) Value {
+		p, cur := builderGet(in, a[0])
+		builderSet(in, p, in.strConcat(cur, a[1]))
+		n := Value(mkInt(0))
+		if s, ok := a[1].(string); ok {
+			n = mkInt(int64(len(s)))
+		}
+		return Tuple{n, Iface{}}
+	})
+	reg("(*strings.Builder).WriteByte", func(in *Interp, fr *frame, a []Value) Value {
+		p, cur := builderGet(in, a[0])
+		c, ok := concInt(a[1])
+		if !ok {
+			in.abort("unsupported: strings.Builder.WriteByte with a symbolic byte")
+		}
+		builderSet(in, p, in.strConcat(cur, string([]byte{byte(c)})))
+		return Iface{}
+	})
+	reg("(*strings.Builder).WriteRune", func(in *Interp, fr *frame, a []Value) Value {
+		p, cur := builderGet(in, a[0])
+		c, ok := concInt(a[1])
+		if !ok {
+			in.abort("unsupported: strings.Builder.WriteRune with a symbolic rune")
+		}
+		r := string(rune(c))
+		builderSet(in, p, in.strConcat(cur, r))
+		return Tuple{mkInt(int64(len(r))), Iface{}}
+	})
+	reg("(*strings.Builder).String", func(in *Interp, fr *frame, a []Value) Value {
+		_, cur := builderGet(in, a[0])
+		return cur
+	})
+	reg("(*strings.Builder).Len", func(in *Interp, fr *frame, a []Value) Value {
+		_, cur := builderGet(in, a[0])
+		switch s := cur.(type) {
+		case string:
+			return mkInt(int64(len(s)))
+		case *SymStr:
+			return in.symStrLen(s)
+		}
+		return mkInt(0)
+	})
+	reg("(*strings.Builder).Grow", func(in *Interp, fr *frame, a []Value) Value { return nil })
+	reg("(*strings.Builder).Reset", func(in *Interp, fr *frame, a []Value) Value {
+		p, _ := builderGet(in, a[0])
+		builderSet(in, p, "")
+		return nil
+	})
 	reg("internal/abi.NoEscape", func(in *Interp, fr *frame, a []Value) Value { return a[0] })
 	reg("strings.Join", func(in *Interp, fr *frame, a []Value) Value {
 		elems, _ := a[0].(Slice)
